@@ -5,7 +5,7 @@
 //!   run seed=<u64> proto=<udp|tcp> req=<bytes> resp=<bytes> wchunk=<n> rchunk=<n> mtu=<n> [smtu=<n>]
 //!       drop_pm=<0..1000> dup_pm=<0..1000> reorder_pm=<0..1000> faults_until_ms=<n> [vanish_us=<n>]
 //!       client_op=<normal|shutdown_early|drop_early|concurrent>
-//!       server_op=<normal|write_first|drop_early|vanish|forget_secret> idle_ms=<n> deadline_ms=<n>
+//!       server_op=<normal|write_first|drop_early|stall|vanish|forget_secret> idle_ms=<n> deadline_ms=<n>
 //!
 //! proto=udp runs client and server inside the bach discrete-event simulation. The runtime is built
 //! exactly like `s2n_quic_dc::testing::sim` (bach default runtime, 500 µs one-way latency = 1 ms RTT),
@@ -16,6 +16,8 @@
 //! which is why the repo's own packet-loss tests are still `#[cfg(todo)]`). Faults apply while
 //! virtual time < faults_until_ms, afterwards the network is clean. `vanish_us` > 0 makes the network
 //! drop EVERY packet from that virtual time (in µs) on (server_op=vanish: the peer has vanished).
+//! server_op=stall: the server application reads the whole request and then never answers nor closes (the
+//! repo's `idle_timeout::server_no_response`): only the client's RECEIVER idle timer can end the stream.
 //! server_op=forget_secret: as in the repo's `fail_fast_unknown_path_secret` test, a throw-away first
 //! stream makes the server drop its path-secret state (`Map::drop_state`), then the real stream runs.
 //!
@@ -99,6 +101,7 @@ enum ServerOp {
     Normal,
     WriteFirst,
     DropEarly,
+    Stall,
     Vanish,
     ForgetSecret,
 }
@@ -170,6 +173,7 @@ fn parse(toks: &[&str]) -> Option<Params> {
         "normal" => ServerOp::Normal,
         "write_first" => ServerOp::WriteFirst,
         "drop_early" => ServerOp::DropEarly,
+        "stall" => ServerOp::Stall,
         "vanish" => ServerOp::Vanish,
         "forget_secret" => ServerOp::ForgetSecret,
         _ => return None,
@@ -558,6 +562,11 @@ async fn server_flow(mut stream: Stream, p: &Params, rep: &Shared) {
             read_payload(&mut stream, kr, p.rchunk, Some((p.req / 2) as u64), rep, side).await;
             // drop without writing anything
         }
+        ServerOp::Stall => {
+            read_payload(&mut stream, kr, p.rchunk, None, rep, side).await;
+            // hold the stream: no response, no shutdown
+            s2n_quic_dc::testing::sleep(Duration::from_millis(p.deadline_ms)).await;
+        }
     }
 }
 
@@ -873,17 +882,22 @@ fn run_udp(p: Params) -> (Report, net::Adversary) {
                 }
                 let p = p.clone();
                 let rep = rep.clone();
-                async move {
+                let stall = p.server_op == ServerOp::Stall;
+                let handler = async move {
                     rep.lock().unwrap().server_started = true;
                     let remaining = deadline.saturating_sub(bach::time::Instant::now().elapsed_since_start());
                     let timed_out = bach::time::timeout(remaining, server_flow(stream, &p, &rep)).await.is_err();
                     let mut r = rep.lock().unwrap();
-                    r.deadline |= timed_out;
+                    r.deadline |= timed_out && !stall;
                     r.server_done = !timed_out;
                     r.ts = Some(bach_now_ms());
+                };
+                if stall {
+                    // the simulation ends when the client has its answer (an error)
+                    handler.spawn();
+                } else {
+                    handler.primary().spawn();
                 }
-                .primary()
-                .spawn();
             }
         }
         .group("server")
@@ -942,7 +956,12 @@ fn run_tcp(p: Params) -> Report {
                     handlers.push(tokio::spawn(async move {
                         rep.lock().unwrap().server_started = true;
                         let flow = async {
-                            if p.server_op == ServerOp::Vanish {
+                            if p.server_op == ServerOp::Stall {
+                                let mut stream = stream;
+                                read_payload(&mut stream, key_c2s(p.seed), p.rchunk, None, &rep, Side::Server).await;
+                                tokio::time::sleep(Duration::from_millis(p.idle_ms + 3000)).await;
+                                drop(stream);
+                            } else if p.server_op == ServerOp::Vanish {
                                 // the peer application froze: hold the stream, do nothing
                                 tokio::time::sleep(Duration::from_millis(p.idle_ms + 3000)).await;
                                 drop(stream);
@@ -983,7 +1002,7 @@ fn run_tcp(p: Params) -> Report {
             let mut r = rep.lock().unwrap();
             r.deadline |= timed_out;
             r.client_done = !timed_out;
-            if matches!(p.server_op, ServerOp::Vanish | ServerOp::ForgetSecret) && client_ms > p.idle_ms + 2000 {
+            if matches!(p.server_op, ServerOp::Vanish | ServerOp::Stall | ServerOp::ForgetSecret) && client_ms > p.idle_ms + 2500 {
                 r.late = true;
             }
         }
